@@ -69,7 +69,7 @@ theorem noOC_strip {s : Str} (h : noOC s = true) : noOC (strip s) = true :=
 
 /-! ### facts about the pieces -/
 
-theorem splitFirst_not_mem {c : Ch} {s pre rest : Str} (h : splitFirst c s = some (pre, rest)) : c ∉ pre := by
+theorem splitFirst_not_mem {c : Nat} {s pre rest : Str} (h : splitFirst c s = some (pre, rest)) : c ∉ pre := by
   induction s generalizing pre with
   | nil => simp [splitFirst] at h
   | cons x xs ih =>
@@ -87,7 +87,7 @@ theorem splitFirst_not_mem {c : Ch} {s pre rest : Str} (h : splitFirst c s = som
       · exact hx e.symm
       · exact ih hp hm
 
-theorem splitLast_not_mem {c : Ch} {s pre post : Str} (h : splitLast c s = some (pre, post)) : c ∉ post := by
+theorem splitLast_not_mem {c : Nat} {s pre post : Str} (h : splitLast c s = some (pre, post)) : c ∉ post := by
   induction s generalizing pre with
   | nil => simp [splitLast] at h
   | cons x xs ih =>
